@@ -341,6 +341,9 @@ def default_handler_registrations(repo) -> Dict[str, List[str]]:
     """Request class name -> qualified names of the functions registered as its default
     handler, by any of the three spellings the runtime offers: ``@Req.handle`` on the
     function, a module-level ``Req.handle(fn)``, or ``[runtime.]handle_by_default(Req, fn)``."""
+    cached = repo.__dict__.get("_default_handler_registrations")
+    if cached is not None:
+        return cached
     out: Dict[str, List[str]] = {}
 
     def add(mod, req_expr, fn_name):
@@ -364,6 +367,46 @@ def default_handler_registrations(repo) -> Dict[str, List[str]]:
                 add(mod, c.func.value, c.args[0].id)
             elif short_name(c) == "handle_by_default" and len(c.args) == 2 and isinstance(c.args[1], ast.Name):
                 add(mod, c.args[0], c.args[1].id)
+    # whatever else a module *executes* when it is imported (a loop over a table of (request, handler) pairs, a private
+    # registration function …): the statements are run by the interpreter and the stores into the runtime's default
+    # table are read off the paths
+    import copy as _copy
+    from .interp import Ctx, analyse_function
+    from .terms import Fn, Sym
+    for mod in repo.modules.values():
+        if mod.name.startswith("labrea.mypy"):
+            continue
+        stmts = [st for st in mod.tree.body if isinstance(st, (ast.For, ast.If, ast.With, ast.While, ast.Try))
+                 or (isinstance(st, ast.Expr) and isinstance(st.value, ast.Call))]
+        if not stmts:
+            continue
+        fn = ast.parse("def __module__():\n    pass").body[0]
+        fn.body = [_copy.deepcopy(st) for st in stmts]
+        ast.fix_missing_locations(fn)
+        try:
+            paths = analyse_function(Ctx(repo), mod, fn)
+        except Exception:
+            continue
+        for p in paths:
+            if p.status != "ret":
+                continue
+            for e in p.events:
+                if e.kind != "store" or len(e.args) < 2 or not isinstance(e.target, Fn) or not isinstance(getattr(e.target, "node", None), ast.FunctionDef):
+                    continue
+                tbl, idx = e.args[0], e.args[1]
+                if not (isinstance(tbl, Sym) and tbl.key().startswith("global<labrea.runtime.")):
+                    continue
+                k = idx.args[0] if isinstance(idx, Sym) and idx.head == "index" and idx.args else None
+                if not (isinstance(k, Sym) and k.head == "class" and k.text):
+                    continue
+                hm = e.target.owner[3] if e.target.owner and len(e.target.owner) > 3 and e.target.owner[3] is not None else mod
+                q = f"{hm.name}.{e.target.node.name}"
+                cname = k.text.rsplit(".", 1)[-1]
+                if q in repo.functions:
+                    out.setdefault(cname, [])
+                    if q not in out[cname]:
+                        out[cname].append(q)
+    repo.__dict__["_default_handler_registrations"] = out
     return out
 
 
